@@ -42,16 +42,19 @@ func c15r1(p *Program, r *Report) {
 	ps := r.NeedFunc("(*Query).PageState")
 	if ps != nil {
 		pinfo := ps.Pkg.TypesInfo
-		ast.Inspect(ps.Decl.Body, func(x ast.Node) bool {
-			if as, isAs := x.(*ast.AssignStmt); isAs && len(as.Lhs) == 1 && len(as.Rhs) == 1 {
-				if sel, isSel := ast.Unparen(as.Lhs[0]).(*ast.SelectorExpr); isSel && p.isFieldOf(pinfo, sel, "Query") {
-					if v, isC := pinfo.Types[as.Rhs[0]]; isC && v.Value != nil && v.Value.String() == "true" {
-						manualFlags[sel.Sel.Name] = true
+		// in PageState itself or in the private helpers it is split into
+		for _, u := range p.unitsOf(ps) {
+			ast.Inspect(u.Decl.Body, func(x ast.Node) bool {
+				if as, isAs := x.(*ast.AssignStmt); isAs && len(as.Lhs) == 1 && len(as.Rhs) == 1 {
+					if sel, isSel := ast.Unparen(as.Lhs[0]).(*ast.SelectorExpr); isSel && p.isFieldOf(pinfo, sel, "Query") {
+						if v, isC := pinfo.Types[as.Rhs[0]]; isC && v.Value != nil && v.Value.String() == "true" {
+							manualFlags[sel.Sel.Name] = true
+						}
 					}
 				}
-			}
-			return true
-		})
+				return true
+			})
+		}
 	}
 	ast.Inspect(fi.Decl.Body, func(x ast.Node) bool {
 		as, ok := x.(*ast.AssignStmt)
@@ -160,6 +163,23 @@ func c15r2(p *Program, r *Report) {
 		}
 	}
 	qid, _ := ast.Unparen(qv).(*ast.Ident)
+	if call, isCall := ast.Unparen(qv).(*ast.CallExpr); isCall && qid == nil {
+		// the copy is made by a private helper that returns it (qry.nextPageQuery(state)): the rule is decided there
+		if m := p.FuncOf(calleeOf(info, call)); m != nil && m.Decl.Body != nil && m.Pkg == fi.Pkg && m.Obj != nil && !m.Obj.Exported() {
+			var ret *ast.Ident
+			nret := 0
+			inspectNoLit(m.Decl.Body, func(x ast.Node) bool {
+				if rs, ok := x.(*ast.ReturnStmt); ok && len(rs.Results) == 1 {
+					nret++
+					ret, _ = ast.Unparen(rs.Results[0]).(*ast.Ident)
+				}
+				return true
+			})
+			if nret == 1 && ret != nil {
+				qid, host = ret, m
+			}
+		}
+	}
 	if qid == nil {
 		r.Bad(lit, "(*Conn).executeQuery next page holds its own query", "the nextIter's query is "+exprStr(qv)+", not a local copy")
 		return
